@@ -4,6 +4,7 @@ from ..r_pack import rule_layout, rule_sizes, rule_limits, rule_stereo_codes, ru
 from ..r_readers import rule_negative_count_slices
 from .c18 import duplicate_tables, isotope_windows
 from ..r_hygiene import rule_hygiene as _rule_hygiene
+from ..r_pack import rule_half_float_decoder as _rule_half
 from ..r_pack import rule_unpach_dispatch as _rule_unpach
 from ..r_query import rule_isotope_setter as _rule_iso_setter
 
@@ -25,5 +26,6 @@ def run(ck, repo):
     rule_stereo_codes(ck, repo, 'C10.D4-stereo-codes')
     rule_cis_trans_keys(ck, repo, 'C10.D4-cis-trans-keys')
     _rule_hygiene(ck, repo, 'C10.H-dataflow-hygiene', 'C10')
+    _rule_half(ck, repo, 'C10.D1-half-float')
     _rule_unpach(ck, repo, 'C10.D3-unpach-dispatch')
     _rule_iso_setter(ck, repo, 'C10.D2-isotope-setter')
